@@ -27,3 +27,94 @@ MUTANTS = [
     dict(id="c17-block-comment-ignored", props=["C17"], edits=[("codelimit/common/source_utils.py", 'elif value.startswith("//") or value.startswith("/*"):', 'elif value.startswith("//"):')]),
     dict(id="c17-also-next-line", props=["C17"], edits=[("codelimit/common/scope/scope_utils.py", "    nocl_comment_lines = [t.location.line for t in nocl_comment_tokens]", "    nocl_comment_lines = [t.location.line for t in nocl_comment_tokens] + [t.location.line - 1 for t in nocl_comment_tokens]")]),
 ]
+
+SU = "codelimit/common/scope/scope_utils.py"
+SC = "codelimit/common/Scanner.py"
+MA = "codelimit/common/gsm/matcher.py"
+MUTANTS += [
+    # ---- C01 / C05
+    dict(id="c01-scope-tokens-gt", props=["C01"], edits=[(SU, "index >= children_token_ranges[0].end:", "index > children_token_ranges[0].end:")]),
+    dict(id="c01-children-not-excluded", props=["C01"], edits=[(SU, "        if len(children_token_ranges) == 0 or index < children_token_ranges[0].start:\n            result.append(tokens[index])", "        if True:\n            result.append(tokens[index])")]),
+    dict(id="c01-end-minus-2", props=["C01", "C05"], edits=[(SC, "last_token = code_tokens[scope.block.end - 1]", "last_token = code_tokens[max(scope.block.end - 2, scope.header.token_range.start)]")]),
+    dict(id="c01-contains-nonstrict-start", props=["C01"], edits=[("codelimit/common/scope/Scope.py", "self.header.token_range.start < other.header.token_range.start", "self.header.token_range.start <= other.header.token_range.start + 3")]),
+    dict(id="c01-java-throws-dropped", props=["C01"], edits=[("codelimit/languages/Java.py", "[Keyword('throws'), ZeroOrMore(And(Not(';'), Not('{'))), Symbol(\"{\")]", "[Keyword('throws'), Name(), Symbol(\"{\")]")]),
+    dict(id="c01-nearest-block-gt", props=["C01"], edits=[(SU, "elif block.start >= header.end:", "elif block.gt(header):")]),
+    dict(id="c01-fold-one-level", props=["C01"], edits=[(SU, "        while stack and not stack[-1].contains(scope):\n            stack.pop()", "        while len(stack) > 1 or (stack and not stack[-1].contains(scope)):\n            stack.pop()")]),
+    dict(id="c05-unsorted-headers", props=["C05", "C01"], edits=[(SU, "    result.reverse()\n    return result", "    return result")]),
+    dict(id="c05-end-col-no-len", props=["C05", "C01"], edits=[(SC, "                    last_token.location.column + len(last_token.value),", "                    last_token.location.column + 1,")]),
+    dict(id="c05-loc-plus-one", props=["C05"], edits=[(SC, "file_loc = sum([m.value for m in measurements])", "file_loc = sum([m.value for m in measurements]) + (1 if len(measurements) > 3 else 0)")]),
+    dict(id="c05-multiline-end-dropped", props=["C05"], edits=[(SC, "            if len(last_token_lines) == 1:", "            if True:")]),
+    # ---- C03
+    dict(id="c03-no-latin1-fallback", props=["C03"], edits=[(SC, "    except UnicodeDecodeError:\n        with open(path, encoding=\"latin-1\") as f:\n            return f.read()", "    except UnicodeError as e:\n        raise e")]),
+    dict(id="c03-python-eof-index", props=["C03"], edits=[("codelimit/languages/Python.py", "tokens[min(header.token_range.end, len(tokens) - 1)]", "tokens[header.token_range.end]")]),
+    dict(id="c03-recursive-unfold", props=["C03"], edits=[(SU, "    result = []\n    stack = list(reversed(scopes))\n    while stack:\n        scope = stack.pop()\n        result.append(scope)\n        stack.extend(reversed(scope.children))\n    return result", "    result = []\n    for scope in scopes:\n        result.append(scope)\n        result.extend(unfold_scopes(scope.children))\n    return result")]),
+    dict(id="c03-check-outside-cwd", props=["C03"], edits=[("codelimit/commands/check.py", "                    except ValueError:\n                        pass\n                    check_file(abs_path, check_result)", "                    except KeyError:\n                        pass\n                    check_file(abs_path, check_result)")]),
+    # ---- C04
+    dict(id="c04-keep-single-comments", props=["C04", "C16"], edits=[("codelimit/common/Token.py", "        return self.token_type in Comment", "        return self.token_type in Comment and self.token_type is not Comment.Single")]),
+    dict(id="c04-empty-token-is-code", props=["C04", "C16"], edits=[("codelimit/common/Token.py", "and (self.value.isspace() or self.value == \"\")", "and self.value.isspace()")]),
+    dict(id="c04-count-comment-lines-in-python-blocks", props=["C04"], edits=[("codelimit/languages/Python.py", "                elif line_indentation > header_indentation:", "                elif line_indentation > header_indentation and line_nr % 97 != 0:")]),
+    # ---- C06
+    dict(id="c06-no-deepcopy", props=["C06", "C14"], edits=[("codelimit/common/gsm/Pattern.py", "self.predicate_map[predicate_id] = deepcopy(transition[0])", "self.predicate_map[predicate_id] = transition[0]")]),
+    dict(id="c06-sort-by-hash", props=["C06"], edits=[(SU, "    headers = language.extract_headers(code_tokens)", "    headers = language.extract_headers(code_tokens)\n    if len(headers) > 2 and hash(headers[0].name()) % 2:\n        headers = headers[:-1]")]),
+    dict(id="c06-module-state-leak", props=["C06"], edits=[(SC, "def scan_file(tokens: list[Token], language: Language) -> list[Measurement]:\n    scopes = build_scopes(tokens, language)", "_SEEN: list = []\n\n\ndef scan_file(tokens: list[Token], language: Language) -> list[Measurement]:\n    _SEEN.append(len(tokens))\n    if len(_SEEN) % 50 == 0:\n        tokens = tokens[:-1]\n    scopes = build_scopes(tokens, language)")]),
+    dict(id="c06-walk-order-dependent", props=["C06", "C07"], edits=[("codelimit/common/Codebase.py", "        self.totals[entry.language].add(entry)", "        if len(self.files) != 3 or entry.path < 'm':\n            self.totals[entry.language].add(entry)")]),
+    # ---- C07
+    dict(id="c07-skip-hard-count", props=["C07", "C02"], edits=[("codelimit/common/LanguageTotals.py", "        self.hard_to_maintain += profile[2]", "        self.hard_to_maintain += profile[2] if self.files % 5 else 0")]),
+    dict(id="c07-aggregate-depth1", props=["C07"], edits=[("codelimit/common/Codebase.py", "                        sub_folder = f\"{path}{entry.name}\"", "                        sub_folder = f\"{path}{entry.name}\" if path.count('/') < 3 else entry.name")]),
+    dict(id="c07-folder-listed-twice", props=["C07"], edits=[("codelimit/common/Codebase.py", "        if f\"{path}/\" not in self.tree:\n            self.tree[f\"{path}/\"] = SourceFolder()", "        if f\"{path}/\" not in self.tree or path.endswith('b'):\n            self.tree[f\"{path}/\"] = self.tree.get(f\"{path}/\") or SourceFolder()")]),
+    dict(id="c07-merge-profiles-wrong", props=["C07"], edits=[(U, "return [rc1[0] + rc2[0], rc1[1] + rc2[1], rc1[2] + rc2[2], rc1[3] + rc2[3]]", "return [rc1[0] + rc2[0], rc1[1] + rc2[1], rc1[2] + rc2[2], rc1[3] + rc2[2]]")]),
+    # ---- C08
+    dict(id="c08-one-raw-string", props=["C08"], edits=[("codelimit/common/report/ReportWriter.py", "json += f'{{\"unit_name\": {dumps(measurement.unit_name)}, '", "json += f'{{\"unit_name\": \"{measurement.unit_name}\", '")]),
+    dict(id="c08-reader-drops-version", props=["C08", "C09"], edits=[("codelimit/common/report/ReportReader.py", "        report.version = d[\"version\"] if \"version\" in d else None\n", "")]),
+    dict(id="c08-file-order-lost", props=["C08"], edits=[("codelimit/common/report/ReportReader.py", "        for k, v in d[\"codebase\"][\"files\"].items():", "        for k, v in sorted(d[\"codebase\"][\"files\"].items(), reverse=True):")]),
+    dict(id="c08-compact-separator", props=["C08"], edits=[("codelimit/common/report/ReportWriter.py", "separator = \",\\n\" if self.pretty_print else \", \"", "separator = \",\\n\" if self.pretty_print else \" \"")]),
+    # ---- C09
+    dict(id="c09-ignore-checksum", props=["C09"], edits=[(SC, "    if cached_entry and cached_entry.checksum() == checksum:", "    if cached_entry and len(cached_entry.checksum()) == len(checksum):")]),
+    dict(id="c09-lookup-by-basename", props=["C09"], edits=[(SC, "            cached_entry = cached_report.codebase.files[rel_path]\n        except KeyError:\n            pass", "            cached_entry = cached_report.codebase.files[rel_path]\n        except KeyError:\n            same = [e for k, e in cached_report.codebase.files.items() if e.checksum() == checksum]\n            cached_entry = same[0] if same else None")]),
+    dict(id="c09-ignore-version", props=["C09"], edits=[("codelimit/commands/scan.py", "        if cached_report and cached_report.version == Report.VERSION:", "        if cached_report:")]),
+    dict(id="c09-report-shows-other-version", props=["C09"], edits=[("codelimit/utils.py", "    if report_version != Report.VERSION:", "    if report_version is None:")]),
+    # ---- C10
+    dict(id="c10-no-tolerant-read", props=["C10"], edits=[("codelimit/commands/scan.py", "        except Exception:\n            # a truncated, damaged or foreign cache file is no cache: scan from scratch and overwrite it\n            return None", "        except ZeroDivisionError:\n            return None")]),
+    dict(id="c10-only-jsondecodeerror", props=["C10"], edits=[("codelimit/commands/scan.py", "        except Exception:\n            # a truncated", "        except ValueError:\n            # a truncated")]),
+    dict(id="c10-no-type-validation", props=["C10"], edits=[("codelimit/common/report/ReportReader.py", "    if type(value) is not expected:", "    if False:")]),
+    dict(id="c10-mkdir-only-when-missing-breaks-tagless", props=["C10"], edits=[("codelimit/commands/scan.py", "    report_path.write_text(ReportWriter(report).to_json())", "    if cache_dir.joinpath(\"CACHEDIR.TAG\").exists():\n        report_path.write_text(ReportWriter(report).to_json())")]),
+    # ---- C11
+    dict(id="c11-no-dot-dir-pruning", props=["C11", "C12"], edits=[(SC, "        dirs[:] = [d for d in dirs if not d[0] == \".\"]\n        for file in files:\n            rel_path = Path(os.path.join(root, file)).relative_to(path.absolute())", "        for file in files:\n            rel_path = Path(os.path.join(root, file)).relative_to(path.absolute())")]),
+    dict(id="c11-ignore-gitignore", props=["C11", "C12"], edits=[(SC, "    if gitignore_excludes:\n        excludes.extend(gitignore_excludes)", "    if gitignore_excludes and len(gitignore_excludes) > 2:\n        excludes.extend(gitignore_excludes)")]),
+    dict(id="c11-exclude-on-basename", props=["C11"], edits=[(SC, "            if is_excluded(rel_path, excludes_spec):\n                continue\n            try:", "            if is_excluded(Path(rel_path.name), excludes_spec):\n                continue\n            try:")]),
+    dict(id="c11-language-by-suffix-only", props=["C11"], edits=[(SC, "                if lexer_name in languages:", "                if lexer_name in languages and not file.startswith('t'):")]),
+    dict(id="c11-config-exclude-ignored", props=["C11"], edits=[("codelimit/common/Configuration.py", "            cls.exclude.extend(d[\"exclude\"])", "            cls.exclude.extend(d[\"exclude\"][1:])")]),
+    # ---- C12
+    dict(id="c12-check-skips-exclusion-for-dirs", props=["C12"], edits=[("codelimit/commands/check.py", "                        if is_excluded(rel_path, excludes_spec):\n                            continue\n                    except ValueError:", "                        if is_excluded(rel_path, excludes_spec) and len(rel_path.parts) < 3:\n                            continue\n                    except ValueError:")]),
+    dict(id="c12-check-hidden-files", props=["C12"], edits=[("codelimit/commands/check.py", "                files = [f for f in files if not f[0] == \".\"]\n                dirs[:] = [d for d in dirs if not d[0] == \".\"]\n                for file in files:\n                    abs_path", "                dirs[:] = [d for d in dirs if not d[0] == \".\"]\n                for file in files:\n                    abs_path")]),
+    dict(id="c12-check-own-decoding", props=["C12", "C03"], edits=[("codelimit/commands/check.py", "        code = _read_file(path)", "        with open(path, encoding=\"utf-8\", errors=\"replace\") as f:\n            code = f.read()")]),
+    dict(id="c12-check-sorted-unstable", props=["C12"], edits=[("codelimit/commands/check.py", "                key=lambda measurement: measurement.value,\n                reverse=True,", "                key=lambda measurement: (measurement.value, measurement.start.line),\n                reverse=True,")]),
+    # ---- C13
+    dict(id="c13-optional-as-star", props=["C13"], edits=[("codelimit/common/gsm/operator/Optional.py", "        nfa.accepting.epsilon_transitions = [accepting]", "        nfa.accepting.epsilon_transitions = [nfa.start, accepting]")]),
+    dict(id="c13-starts-with-longest", props=["C13"], edits=[(MA, "        if pattern.is_accepting():\n            pattern.end = len(pattern.tokens)\n            return pattern\n    return None", "        if pattern.is_accepting():\n            pattern.end = len(pattern.tokens)\n            best = pattern.end\n    return None")]),
+    dict(id="c13-plus-allows-empty", props=["C13", "C14"], edits=[("codelimit/common/gsm/operator/OneOrMore.py", "        start.epsilon_transitions = [nfa.start]", "        start.epsilon_transitions = [nfa.start, accepting]")]),
+    dict(id="c13-no-visited-set", props=["C13"], edits=[("codelimit/common/gsm/Expression.py", "        if state not in result:\n            result.add(state)\n            stack.extend(state.epsilon_transitions)", "        if state not in result or len(result) > 40:\n            result.add(state)\n            stack.extend(state.epsilon_transitions)")]),
+    dict(id="c13-nfa-match-stale-states", props=["C13"], edits=[(MA, "        active_states = next_states\n        next_states = set()", "        active_states = next_states\n        next_states = set() if len(sequence) < 4 else next_states")]),
+    # ---- C14
+    dict(id="c14-no-overlap-skip-at-end", props=["C14"], edits=[(MA, "    for pattern in fs.active_patterns:\n        if fs.matches and pattern.start < fs.matches[-1].end:\n            continue", "    for pattern in fs.active_patterns:")]),
+    dict(id="c14-accept-while-not-stuck", props=["C14"], edits=[(MA, "            if pattern.consume(item):\n                fs.next_state_patterns.append(pattern)", "            if pattern.is_accepting() and idx % 5 == 4:\n                add_match(pattern, idx)\n            elif pattern.consume(item):\n                fs.next_state_patterns.append(pattern)")]),
+    dict(id="c14-balanced-ends-at-depth1", props=["C14", "C01"], edits=[("codelimit/common/token_matching/predicate/Balanced.py", "            return self.depth > 0", "            return self.depth > 1")]),
+    dict(id="c14-tokens-off-by-one", props=["C14"], edits=[(MA, "    def add_match(pattern: Pattern, end: int):\n        if followed_by is None or starts_with(followed_by, sequence[end:]):\n            pattern.end = end", "    def add_match(pattern: Pattern, end: int):\n        if followed_by is None or starts_with(followed_by, sequence[end:]):\n            pattern.end = end if end < 6 else end - 1")]),
+    # ---- C15
+    dict(id="c15-overlapping-predicate-java", props=["C15", "C03"], edits=[("codelimit/languages/Java.py", "ZeroOrMore(And(Not(';'), Not('{')))", "ZeroOrMore(Not(';'))")]),
+    dict(id="c15-arrow-in-header-again", props=["C15", "C03"], edits=[("codelimit/languages/TypeScript.py", "                OneOrMore(Balanced(\"(\", \")\")),\n            ],\n            [Symbol(\"=>\"), Symbol(\"{\")],", "                OneOrMore(Balanced(\"(\", \")\")),\n                Symbol(\"=>\"),\n            ],\n            Symbol(\"{\"),")]),
+    dict(id="c15-guard-silenced", props=["C15"], edits=[("codelimit/common/gsm/Pattern.py", "                if found_transition:\n                    raise ValueError(\"Multiple transitions found!\")", "                if found_transition:\n                    continue"),
+                                                      ("codelimit/languages/JavaScript.py", "                OneOrMore(Balanced(\"(\", \")\")),\n            ],\n            [Symbol(\"=>\"), Symbol(\"{\")],", "                OneOrMore(Balanced(\"(\", \")\")),\n                Symbol(\"=>\"),\n            ],\n            Symbol(\"{\"),")]),
+    # ---- C16
+    dict(id="c16-line-start-off-by-one", props=["C16", "C05"], edits=[("codelimit/common/lexer_utils.py", "                line_start = indices[newline_index] + 1", "                line_start = indices[newline_index] + (1 if newline_index % 7 else 2)")]),
+    dict(id="c16-keep-whitespace", props=["C16"], edits=[("codelimit/common/Token.py", "            self.token_type == Text or self.token_type == Whitespace", "            self.token_type == Whitespace")]),
+    dict(id="c16-ge-newline", props=["C16", "C05"], edits=[("codelimit/common/lexer_utils.py", "t[0] > indices[newline_index]:", "t[0] >= indices[newline_index]:")]),
+    dict(id="c16-location-to-index", props=["C16"], edits=[("codelimit/common/source_utils.py", "    result += max(0, position.column - 1)", "    result += max(0, position.column - 1) if position.line < 40 else position.column")]),
+    # ---- C18
+    dict(id="c18-delta-sign", props=["C18"], edits=[("codelimit/common/LanguageTotalsDelta.py", "        delta = total_loc - (self._language_totals_previous.loc if self._language_totals_previous else 0)", "        delta = (self._language_totals_previous.loc if self._language_totals_previous else 0) - total_loc")]),
+    dict(id="c18-cutoff-9", props=["C18"], edits=[("codelimit/common/report/format_markdown.py", "    if not full and total_findings > 10:\n        functions = functions[:10]", "    if not full and total_findings > 10:\n        functions = functions[:9]")]),
+    dict(id="c18-more-rows-off", props=["C18"], edits=[("codelimit/common/report/format_text.py", "            f\"{total_findings - 10} more rows, use --full", "            f\"{total_findings - 9} more rows, use --full")]),
+    dict(id="c18-text-delta-current", props=["C18"], edits=[("codelimit/common/ScanResultTable.py", "language_totals_previous = self._stp.language_total(", "language_totals_previous = self._stc.language_total(")]),
+    dict(id="c18-sort-by-files", props=["C18"], edits=[("codelimit/common/ScanTotals.py", "self._languages_totals.values(), key=lambda x: x.loc, reverse=True", "self._languages_totals.values(), key=lambda x: x.files, reverse=True")]),
+    dict(id="c18-total-delta-functions", props=["C18"], edits=[("codelimit/common/ScanTotalsDelta.py", "        delta = total_functions - self._scan_totals_previous.total_functions()", "        delta = total_functions - self._scan_totals_previous.total_files()")]),
+]
